@@ -92,6 +92,37 @@ Proof.
   rewrite !u64_id by (unfold M64; lia). reflexivity.
 Qed.
 
+
+(* ---- the lower boundary of sc_io_nonuncompress --------------------------------------------------------------------------
+   Behind the 2-byte zlib header at least 5 bytes must follow (one byte of deflate data and the 4 bytes of the adler32): a shorter
+   source is refused with -1 BEFORE sc_puff is called, for every content and every destination.  The test `src_size < 5` is what
+   keeps `sourcelen = src_size - 4` (unsigned long) from wrapping: whenever the model calls puff, the claimed length is
+   len src - 6, at least 1 and 4 less than the bytes that follow the header. *)
+Theorem nonuncompress_short_input : forall src dest_size dest_cap dest_nil,
+  len src < 7 -> nonuncompress src dest_size dest_cap dest_nil = Err (-1).
+Proof.
+  intros src ds dc dn Hl. unfold nonuncompress. pose proof (len_nonneg src).
+  destruct (Z.ltb_spec (len src) 2); [reflexivity|].
+  rewrite (rd_ok src 0), (rd_ok src 1) by lia. cbn [bind].
+  destruct (negb (Z.land (nth (Z.to_nat 0) src 0) 143 =? 8)); [reflexivity|].
+  destruct (negb ((u32 (shl (nth (Z.to_nat 0) src 0) 8) + nth (Z.to_nat 1) src 0) mod 31 =? 0)); [reflexivity|].
+  destruct (negb (Z.land (nth (Z.to_nat 1) src 0) 32 =? 0)); [reflexivity|].
+  destruct (Z.ltb_spec (len src - 2) 5); [reflexivity|lia].
+Qed.
+
+(* the claimed input length handed to sc_puff never wraps: it is the number of bytes behind the header minus the 4 trailer bytes *)
+Theorem nonuncompress_sourcelen_no_wrap : forall src : list Z, 7 <= len src < BIG ->
+  let src_size := len src - 2 in
+  (src_size <? 5) = false /\ u64 (src_size - 4) = len src - 6 /\ 1 <= len src - 6 /\ len src - 6 + 4 = len (skipn 2 src).
+Proof.
+  intros src Hl. cbv zeta. unfold BIG in Hl. split; [apply Z.ltb_ge; lia|]. split; [rewrite u64_id by (unfold M64; lia); lia|].
+  split; [lia|]. rewrite len_skipn_nat. lia.
+Qed.
+
+(* non-vacuity: zlib header 78 01, one byte 0xbb behind it (a final fixed block that would not end): refused, whatever the destination *)
+Example nonuncompress_short_ex : nonuncompress [120; 1; 187] 0 0 true = Err (-1) /\ nonuncompress [120; 1; 187; 190; 190; 190] 4096 4096 false = Err (-1).
+Proof. split; vm_compute; reflexivity. Qed.
+
 (* non-vacuity: a text cut in the middle of its second line is refused, its first 12 characters still declare the size *)
 Example prefix_ex : sc_decode (firstn 20 ex_data ++ [0]) (mkOut true 1 0) 0 = Err (-1).
 Proof. vm_compute. reflexivity. Qed.
